@@ -274,15 +274,21 @@ func checkExprs(c *core.Ctx, exprs []string, withReflect bool) {
 		r      rendering
 	}
 	var jobs []job
+	// ONE snippet value per type for the whole process (a generator that keeps `snippet.ID(t)` in a variable): the
+	// same value is rendered into every target, a second time per target, and alone
+	ids := make([]snippet.Snippet, len(orig))
+	for i := range orig {
+		ids[i] = snippet.ID(orig[i])
+	}
 	for ti := range targets {
-		r := renderAll(targets[ti].pkg, ti == 2, len(exprs), func(i int) snippet.Snippet { return snippet.ID(orig[i]) })
+		r := renderAll(targets[ti].pkg, ti == 2, len(exprs), func(i int) snippet.Snippet { return ids[i] })
 		jobs = append(jobs, job{ti, "go/types", "X", r})
 		c.Trans(len(exprs))
 	}
 	// a second generated file for the same target in the same process (fresh tracker and namer, after
 	// the other targets were rendered): same texts, same registered imports
 	for ti := range targets {
-		again := renderAll(targets[ti].pkg, ti == 2, len(exprs), func(i int) snippet.Snippet { return snippet.ID(orig[i]) })
+		again := renderAll(targets[ti].pkg, ti == 2, len(exprs), func(i int) snippet.Snippet { return ids[i] })
 		c.Trans(len(exprs))
 		first := jobs[ti].r
 		for i, e := range exprs {
@@ -317,7 +323,7 @@ func checkExprs(c *core.Ctx, exprs []string, withReflect bool) {
 	// expression mentions - an oracle that does not depend on what was rendered before
 	for ti := range targets {
 		for i, e := range exprs {
-			one := renderAll(targets[ti].pkg, false, 1, func(int) snippet.Snippet { return snippet.ID(orig[i]) })
+			one := renderAll(targets[ti].pkg, false, 1, func(int) snippet.Snippet { return ids[i] })
 			c.Trans(1)
 			if one.panics[0] != "" {
 				continue // reported by the main pass
